@@ -147,11 +147,18 @@ pub fn cost(s: Shape, w: &[u32]) -> u128 {
 }
 
 pub fn case(s: Shape, w: &[u32]) -> (u64, u64, Option<(String, String)>, usize) {
+    case_scaled(s, w, 1)
+}
+
+/// the weights are `v[i] * unit`; the grid only has to resolve the *ratios*, i.e. the node sums of `v`
+pub fn case_scaled(s: Shape, v: &[u32], unit: u32) -> (u64, u64, Option<(String, String)>, usize) {
+    let scaled: Vec<u32> = v.iter().map(|x| x * unit).collect();
+    let w: &[u32] = &scaled;
     let k = w.len();
     let pop = mk_pop(&(0..k as i64).collect::<Vec<_>>());
     let total: u64 = w.iter().map(|x| *x as u64).sum();
     let mut m: u128 = 1;
-    for sum in node_sums(s, w) {
+    for sum in node_sums(s, v) {
         if sum > 0 {
             m = lcm(m, sum as u128);
         }
@@ -302,7 +309,27 @@ pub fn run(run: &mut Run) {
             }
         }
     }
-    let results = mcx::par_map(cases.len(), |i| case(cases[i].0, &cases[i].1));
+    // (static pairs only: the dynamic list samples a 64-bit range, where grid midpoints of such aligned
+    // totals fall exactly on rand's rejection zone and the choice tree does not terminate)
+    // the same ratios at the top of the u32 range: weights v * unit with the total just below 2^32
+    // (a sampler that reduces a 32-bit word modulo the total, or computes the ratio in 32-bit
+    // arithmetic, is exact for small totals and wrong here)
+    let mut big_cases = 0u64;
+    let units: [(u32, u32); 3] = [(1 << 30, 3), (357_913_941, 12), (858_993_459, 5)];
+    let mut scaled: Vec<(Shape, Vec<u32>, u32)> = cases.iter().map(|(s, w)| (*s, w.clone(), 1u32)).collect();
+    for (unit, max_total) in units {
+        for (s, w) in &cases {
+            let total: u32 = w.iter().sum();
+            if *s != Shape::Dyn && total >= 2 && total <= max_total && (quick && w.len() <= 3 || !quick) {
+                scaled.push((*s, w.clone(), unit));
+                big_cases += 1;
+            }
+        }
+    }
+    let results = mcx::par_map(scaled.len(), |i| case_scaled(scaled[i].0, &scaled[i].1, scaled[i].2));
+    let cases: Vec<(Shape, Vec<u32>)> = scaled.iter().map(|(s, w, u)| (*s, w.iter().map(|x| x * u).collect())).collect();
+    run.note("scenarios_with_weights_near_u32_max", json!(big_cases));
+    run.bound("large_weight_units", json!(["2^30 (totals <= 3 units)", "357913941 (totals <= 12 units)", "858993459 (totals <= 5 units)"]));
     let mut nontrivial = 0;
     for (i, (leaves, cps, v, outcomes)) in results.into_iter().enumerate() {
         run.evaluations += leaves;
@@ -324,7 +351,7 @@ pub fn run(run: &mut Run) {
     run.states = cases.len() as u64 + ov;
     run.traces_validated = run.evaluations;
     run.distinct_nontrivial = nontrivial;
-    run.rule = "every nesting shape of WeightedPair over 2..4 marker leaves (left chains via with_item_and_weight incl. the Result-chained form, right chains, balanced and mixed trees) and DynWeighted lists of 1..4(5) x every weight vector over 0..3 (thorough 0..5); all grid word sequences explored; the member law must equal w_i/sum exactly, zero-weight members unreachable, all-zero => zero-weight error; u32-boundary weight vectors must build iff the total fits. non-trivial = scenarios with more than one reachable member".into();
+    run.rule = "every nesting shape of WeightedPair over 2..4 marker leaves (left chains via with_item_and_weight incl. the Result-chained form, right chains, balanced and mixed trees) and DynWeighted lists of 1..4(5) x every weight vector over 0..3 (thorough 0..5), and the same ratios scaled to totals just below 2^32; all grid word sequences explored; the member law must equal w_i/sum exactly, zero-weight members unreachable, all-zero => zero-weight error; u32-boundary weight vectors must build iff the total fits. non-trivial = scenarios with more than one reachable member".into();
     run.bound("max_leaves", json!(if quick { 4 } else { 5 }));
     run.bound("max_weight", json!(wmax));
     run.bound("per_scenario_execution_budget", json!(budget.to_string()));
@@ -352,8 +379,10 @@ pub fn replay(v: &Value) -> bool {
         println!("{s:?} weights {w:?}: total {total}, building {}", if built { "succeeded" } else { "failed with WeightSumOverflow" });
         return built == (total <= u32::MAX as u64);
     }
-    let (leaves, _, viol, _) = case(s, &w);
-    println!("{s:?} weights {w:?}: {leaves} executions explored");
+    let unit = [1u32 << 30, 357_913_941, 858_993_459].into_iter().find(|u| w.iter().any(|x| *x >= *u) && w.iter().all(|x| x % u == 0)).unwrap_or(1);
+    let v: Vec<u32> = w.iter().map(|x| x / unit).collect();
+    let (leaves, _, viol, _) = case_scaled(s, &v, unit);
+    println!("{s:?} weights {w:?} (unit {unit}): {leaves} executions explored");
     match viol {
         Some((k, w)) => {
             println!("MISMATCH [{k}]: {w}");
